@@ -18,12 +18,15 @@ type memFS struct {
 	files map[string]*memFile
 	opens int
 	close int
+	noPre bool // do not keep pre-images (very large files)
 }
 
 type memFile struct {
 	mu   sync.Mutex
 	data []byte
 	pre  []byte // content before the most recent WriteAt
+	// region of the most recent WriteAt
+	lastOff, lastLen int
 }
 
 type memHandle struct {
@@ -110,7 +113,10 @@ func (h *memHandle) ReadAt(p []byte, off int64) (int, error) {
 func (h *memHandle) WriteAt(p []byte, off int64) (int, error) {
 	h.f.mu.Lock()
 	defer h.f.mu.Unlock()
-	h.f.pre = append([]byte(nil), h.f.data...)
+	if !h.fs.noPre {
+		h.f.pre = append([]byte(nil), h.f.data...)
+	}
+	h.f.lastOff, h.f.lastLen = int(off), len(p)
 	end := int(off) + len(p)
 	if end > len(h.f.data) {
 		h.f.data = append(h.f.data, make([]byte, end-len(h.f.data))...)
